@@ -74,7 +74,10 @@ ALSO_RULES_OF = {"C02": ("C03/ThrowingNeverNull",),
                  # "counters change by exactly the amount an operation consumes or returns": C04's accounting guards say that
                  "C18": ("C04/CapacityMovesByTaken", "C04/DeallocReturnsWhatWasTaken", "C04/ReportedCapacityIsUsable", "C04/FailureKeepsCapacity"),
                  "C05": ("C16", "C14/AllFreedAtExit", "C14/ShrinkRequestReturnsBlocks", "C14/BlocksKeptForReuse", "C09/UpstreamBlocksReturnedAtEnd"), "C12": ("C01", "C03", "C15/MovedFromSilent", "C09/ReleaseSameShape", "C09/ReleaseOnce", "C09/EverythingReleasedToLeaves"),
-                 "C06": ("C01",), "C07": ("C01",), "C03": ("C01", "C11/NoWriteOutsideBlock", "C11/PieceAfterObjectInsideBlock"),
+                 "C06": ("C01",), "C07": ("C01",), "C03": ("C01", "C11/NoWriteOutsideBlock", "C11/PieceAfterObjectInsideBlock",
+                         # "a failed request leaves ... the allocator able to serve later valid requests": it leaves the
+                         # figures that decide about later requests as they were
+                         "C18/FailedRequestKeepsNextCapacity", "C18/FailedRequestKeepsCapacity"),
                  "C01": ("C03/FixedStorageNeverOverrun", "C14/TemporaryMemoryDisjoint", "C14/ContentIntactUntilScopeEnds", "C14/NoTwoLiveThreadsShareAStack",
                          "C14/CasResultAsModel", "C14/HeldStackMarkedInUse")}
 
